@@ -1,4 +1,141 @@
+(* C12 — Deque and FIFO queues hold exactly what a plain list would.
+   Only the property theorems: each is closed by an exact lemma and followed by Print
+   Assumptions.  A is the element type, nilv Go's nil; the plain-list reference is
+   C12/Spec.v (spec_step / fifo_step). *)
 From Coq Require Import ZArith List Bool.
-From FV Require Import C12.Spec C12.Model C12.Proofs.
+From FV Require Import Generated.Consts C12.Spec C12.Model C12.Proofs.
 Import ListNotations.
 Open Scope Z_scope.
+
+(* "Any sequence of pushes and pops at either end, indexed reads and writes, rotations and
+   clears leaves the deque holding exactly the elements a plain list would hold, in the same
+   order; reads of an empty deque or out-of-range indices are refused by panic rather than
+   answered with stale data":
+   for every operation sequence on a deque that starts empty and well-formed (the zero value
+   and every NewDeque(c, m) are, see c12_initial_deques), every call returns what the plain
+   list returns — OPanic exactly where the list operation is undefined — and at the end the
+   ring buffer holds the list's elements in the list's order, Len() being its length. *)
+Theorem c12_deque_refines_list :
+  forall (A : Type) (nilv : A) (d0 : deque) (ops : list (op A)),
+    wf d0 -> R d0 [] ->
+    let '(d, outs) := run nilv d0 ops in
+    let '(l, souts) := spec_run [] ops in
+    outs = souts /\ contents nilv d = l /\ count d = zlen l.
+Proof. exact @deque_refines_list. Qed.
+Print Assumptions c12_deque_refines_list.
+
+(* ... and no call of any history ends in a Go run-time error (slice index out of range) or
+   fails to terminate: panics are only the explicit refusals above *)
+Theorem c12_deque_no_runtime_error :
+  forall (A : Type) (nilv : A) (d0 : deque) (ops : list (op A)),
+    wf d0 -> R d0 [] -> ~ In OCrash (snd (run nilv d0 ops)).
+Proof. exact @deque_no_crash. Qed.
+Print Assumptions c12_deque_no_runtime_error.
+
+(* "the capacity stays a power of two no smaller than the configured minimum and no smaller
+   than the length" (0 before the first allocation); cfg d0 is the configured minimum:
+   minCap, or minCapacity for the zero value; it is itself a power of two >= minCapacity *)
+Theorem c12_cap :
+  forall (A : Type) (nilv : A) (d0 : deque) (ops : list (op A)),
+    wf d0 -> R d0 [] ->
+    let d := fst (run nilv d0 ops) in
+    (cap d = 0 \/ (pow2 (cap d) /\ cfg d0 <= cap d /\ count d <= cap d)) /\
+    pow2 (cfg d0) /\ collections_queue_minCapacity <= cfg d0.
+Proof. exact @deque_capacity. Qed.
+Print Assumptions c12_cap.
+
+(* "on zero-value and sized deques": the zero value and NewDeque(capacity, minimum) for all
+   arguments up to 2^62 (beyond, Go's int overflows in the rounding loop) start empty and
+   well-formed, with minCap a power of two >= minCapacity and >= minimum *)
+Theorem c12_initial_deques :
+  forall (A : Type) (nilv : A),
+    (wf (@zero_deque A) /\ R (@zero_deque A) []) /\
+    forall capacity minimum, capacity <= 2 ^ 62 -> minimum <= 2 ^ 62 ->
+      exists d, new_deque nilv capacity minimum = Some d /\ wf d /\ R d [] /\
+                pow2 (minCap d) /\ collections_queue_minCapacity <= minCap d /\ minimum <= minCap d.
+Proof.
+  intros A nilv. split; [split; [exact wf_zero | exact R_zero]|exact (new_deque_ok nilv)].
+Qed.
+Print Assumptions c12_initial_deques.
+
+(* "The unbounded FIFO queues return every pushed element exactly once in push order":
+   for every history and every block-size configuration the queue answers like the plain
+   FIFO list (Init() included: it empties both) and holds the list's elements in order ... *)
+Theorem c12_unbounded_fifo :
+  forall (A : Type) (nilv : A) (maxFirst maxInternal : Z) (ops : list (uop A)),
+    let '(q, outs) := urun nilv maxFirst maxInternal uq_init ops in
+    let '(l, souts) := fifo_run [] ops in
+    outs = souts /\ ucontents q = l /\ qlen q = zlen l.
+Proof. exact @unbounded_refines_fifo. Qed.
+Print Assumptions c12_unbounded_fifo.
+
+(* ... hence the elements popped so far followed by those still queued are exactly the
+   elements pushed, in push order (nothing lost, duplicated or reordered), and no call
+   hits a run-time error *)
+Theorem c12_unbounded_exactly_once :
+  forall (A : Type) (nilv : A) (maxFirst maxInternal : Z) (ops : list (uop A)),
+    ~ In UInit ops ->       (* Init() discards what is queued; histories without it *)
+    let '(q, outs) := urun nilv maxFirst maxInternal uq_init ops in
+    popped ops outs ++ ucontents q = pushed ops.
+Proof. exact @unbounded_exactly_once. Qed.
+Print Assumptions c12_unbounded_exactly_once.
+
+Theorem c12_unbounded_no_runtime_error :
+  forall (A : Type) (nilv : A) (maxFirst maxInternal : Z) (ops : list (uop A)),
+    ~ In UOCrash (snd (urun nilv maxFirst maxInternal uq_init ops)).
+Proof. exact @unbounded_no_crash. Qed.
+Print Assumptions c12_unbounded_no_runtime_error.
+
+(* "the concurrent variant loses or duplicates nothing ... under parallel producers and
+   consumers": every method holds the mutex for its whole body, so a schedule is a list of
+   (goroutine, call); for ALL such lists, dequeued ++ remaining = enqueued, in linearisation
+   order *)
+Theorem c12_concurrent :
+  forall (A : Type) (nilv : A) (maxFirst maxInternal : Z) (sched : list (Z * uop A)),
+    no_init sched ->        (* the concurrent type has no Init method *)
+    let '(q, outs) := crun nilv maxFirst maxInternal uq_init sched in
+    popped (map snd sched) outs ++ ucontents q = pushed (map snd sched).
+Proof. exact @concurrent_conservation. Qed.
+Print Assumptions c12_concurrent.
+
+(* "... and preserves each producer's order": if owner tells which goroutine enqueued an
+   element, then for every producer p the elements of p dequeued so far, followed by those
+   of p still queued, are exactly p's Enqueue calls in p's program order *)
+Theorem c12_concurrent_producer_order :
+  forall (A : Type) (nilv : A) (maxFirst maxInternal : Z) (owner : A -> Z)
+         (sched : list (Z * uop A)) (p : Z),
+    no_init sched ->
+    (forall t a, In (t, UPush a) sched -> owner a = t) ->
+    let '(q, outs) := crun nilv maxFirst maxInternal uq_init sched in
+    filter (fun a => owner a =? p) (popped (map snd sched) outs)
+      ++ filter (fun a => owner a =? p) (ucontents q)
+    = pushed (calls_of p sched).
+Proof. exact @concurrent_producer_order. Qed.
+Print Assumptions c12_concurrent_producer_order.
+
+(* non-vacuity: a sized deque meets the hypotheses; a history that grows, wraps, rotates,
+   shrinks and reads out of range computes, and agrees with the list *)
+Example c12_example_init :
+  exists d, new_deque 0 5 33 = Some d /\ wf d /\ R d [] /\ cap d = 64 /\ minCap d = 64.
+Proof.
+  destruct (new_deque_ok 0 5 33) as (d & E & Hw & Hr & _); try (vm_compute; discriminate).
+  exists d. split; [exact E|]. split; [exact Hw|]. split; [exact Hr|].
+  assert (E2 : new_deque 0 5 33 = Some (mkDeque (repeat 0 64) 0 0 0 64)) by reflexivity.
+  rewrite E in E2. injection E2 as ->. split; reflexivity.
+Qed.
+
+Example c12_example_run :
+  let ops := map PushBack [1;2;3;4;5;6;7;8;9;10;11;12;13;14;15;16;17]
+             ++ [Rotate (-3); PopFront; PushFront 99; At 17; At 0; SetAt 1 7; Back]
+             ++ repeat PopBack 13 ++ [Front; Clear; PopFront] in
+  snd (run 0 zero_deque ops) = snd (spec_run [] ops) /\
+  nth 20 (snd (run 0 zero_deque ops)) ONone = OPanic /\
+  cap (fst (run 0 zero_deque ops)) = 16.
+Proof. vm_compute. repeat split; reflexivity. Qed.
+
+Example c12_example_queue :
+  let ops := [UPush 7; UPush 8; UPop; UInit; UFront] ++
+             map UPush [1;2;3;4;5;6;7;8;9;10;11;12;13;14;15;16;17;18] ++ [UPop; UPop; ULen; UFront] in
+  snd (urun 0 16 128 uq_init ops) = snd (fifo_run [] ops) /\
+  map (@length Z) (blocks (fst (urun 0 16 128 uq_init ops))) = [16; 2]%nat.
+Proof. vm_compute. split; reflexivity. Qed.
